@@ -1,4 +1,4 @@
-use std::{fmt::Display, net::IpAddr, time::Duration};
+use std::{fmt::Display, future::Future, io, net::IpAddr, time::Duration};
 
 use futures_util::io::{AsyncBufReadExt, AsyncWriteExt, BufReader};
 
@@ -32,6 +32,41 @@ macro_rules! try_smtp (
     })
 );
 
+/// The timer that bounds every read and write of a connection
+///
+/// The timeout given when connecting used to cover the TCP connection only:
+/// a server that stopped answering afterwards blocked the caller for ever.
+#[derive(Clone, Copy)]
+enum IoDeadline {
+    None,
+    #[cfg(feature = "tokio1")]
+    Tokio1(Duration),
+    #[cfg(feature = "async-std1")]
+    AsyncStd1(Duration),
+}
+
+impl IoDeadline {
+    async fn run<T>(self, operation: impl Future<Output = io::Result<T>>) -> io::Result<T> {
+        match self {
+            IoDeadline::None => operation.await,
+            #[cfg(feature = "tokio1")]
+            IoDeadline::Tokio1(timeout) => {
+                match tokio1_crate::time::timeout(timeout, operation).await {
+                    Ok(result) => result,
+                    Err(_) => Err(io::Error::new(io::ErrorKind::TimedOut, "timed out")),
+                }
+            }
+            #[cfg(feature = "async-std1")]
+            IoDeadline::AsyncStd1(timeout) => {
+                match async_std::future::timeout(timeout, operation).await {
+                    Ok(result) => result,
+                    Err(_) => Err(io::Error::new(io::ErrorKind::TimedOut, "timed out")),
+                }
+            }
+        }
+    }
+}
+
 /// Structure that implements the SMTP client
 pub struct AsyncSmtpConnection {
     /// TCP stream between client and server
@@ -42,6 +77,8 @@ pub struct AsyncSmtpConnection {
     panic: bool,
     /// Information about the server
     server_info: ServerInfo,
+    /// Bound on every read and write
+    deadline: IoDeadline,
 }
 
 impl AsyncSmtpConnection {
@@ -60,7 +97,7 @@ impl AsyncSmtpConnection {
     ) -> Result<AsyncSmtpConnection, Error> {
         #[allow(deprecated)]
         let stream = AsyncNetworkStream::use_existing_tokio1(stream);
-        Self::connect_impl(stream, hello_name).await
+        Self::connect_impl(stream, hello_name, IoDeadline::None).await
     }
 
     /// Connects to the configured server
@@ -105,7 +142,8 @@ impl AsyncSmtpConnection {
         let stream =
             AsyncNetworkStream::connect_tokio1(server, timeout, tls_parameters, local_address)
                 .await?;
-        Self::connect_impl(stream, hello_name).await
+        let deadline = timeout.map_or(IoDeadline::None, IoDeadline::Tokio1);
+        Self::connect_impl(stream, hello_name, deadline).await
     }
 
     /// Connects to the configured server
@@ -120,19 +158,22 @@ impl AsyncSmtpConnection {
     ) -> Result<AsyncSmtpConnection, Error> {
         #[allow(deprecated)]
         let stream = AsyncNetworkStream::connect_asyncstd1(server, timeout, tls_parameters).await?;
-        Self::connect_impl(stream, hello_name).await
+        let deadline = timeout.map_or(IoDeadline::None, IoDeadline::AsyncStd1);
+        Self::connect_impl(stream, hello_name, deadline).await
     }
 
     #[allow(deprecated)]
     async fn connect_impl(
         stream: AsyncNetworkStream,
         hello_name: &ClientId,
+        deadline: IoDeadline,
     ) -> Result<AsyncSmtpConnection, Error> {
         let stream = BufReader::new(stream);
         let mut conn = AsyncSmtpConnection {
             stream,
             panic: false,
             server_info: ServerInfo::default(),
+            deadline,
         };
         // TODO log
         let _response = conn.read_response().await?;
@@ -330,14 +371,13 @@ impl AsyncSmtpConnection {
 
     /// Writes a string to the server
     async fn write(&mut self, string: &[u8]) -> Result<(), Error> {
-        self.stream
-            .get_mut()
-            .write_all(string)
-            .await
-            .map_err(error::network)?;
-        self.stream
-            .get_mut()
-            .flush()
+        let deadline = self.deadline;
+        let stream = self.stream.get_mut();
+        deadline
+            .run(async {
+                stream.write_all(string).await?;
+                stream.flush().await
+            })
             .await
             .map_err(error::network)?;
 
@@ -350,9 +390,9 @@ impl AsyncSmtpConnection {
     pub async fn read_response(&mut self) -> Result<Response, Error> {
         let mut buffer = String::with_capacity(100);
 
-        while self
-            .stream
-            .read_line(&mut buffer)
+        let deadline = self.deadline;
+        while deadline
+            .run(self.stream.read_line(&mut buffer))
             .await
             .map_err(error::network)?
             > 0
